@@ -35,10 +35,16 @@ type gstate struct {
 	L     int
 	diff  map[*types.Var]int
 	saved map[*types.Var]int
+	// at[v] = k: the current position is v moved k steps forward (only maintained
+	// when the analyzer has a textto primitive taking a plain variable)
+	at map[*types.Var]int
 }
 
 func (s gstate) clone() gstate {
-	n := gstate{ok: s.ok, L: s.L, diff: make(map[*types.Var]int, len(s.diff)), saved: make(map[*types.Var]int, len(s.saved))}
+	n := gstate{ok: s.ok, L: s.L, diff: make(map[*types.Var]int, len(s.diff)), saved: make(map[*types.Var]int, len(s.saved)), at: make(map[*types.Var]int, len(s.at))}
+	for k, v := range s.at {
+		n.at[k] = v
+	}
 	for k, v := range s.diff {
 		n.diff[k] = v
 	}
@@ -55,7 +61,12 @@ func gjoin(a, b gstate) gstate {
 	if !b.ok {
 		return a.clone()
 	}
-	n := gstate{ok: true, L: min(a.L, b.L), diff: map[*types.Var]int{}, saved: map[*types.Var]int{}}
+	n := gstate{ok: true, L: min(a.L, b.L), diff: map[*types.Var]int{}, saved: map[*types.Var]int{}, at: map[*types.Var]int{}}
+	for k, v := range a.at {
+		if w, ok := b.at[k]; ok && w == v {
+			n.at[k] = v
+		}
+	}
 	for k, v := range a.diff {
 		if w, ok := b.diff[k]; ok {
 			n.diff[k] = min(v, w)
@@ -70,8 +81,13 @@ func gjoin(a, b gstate) gstate {
 }
 
 func geq(a, b gstate) bool {
-	if a.ok != b.ok || a.L != b.L || len(a.diff) != len(b.diff) || len(a.saved) != len(b.saved) {
+	if a.ok != b.ok || a.L != b.L || len(a.diff) != len(b.diff) || len(a.saved) != len(b.saved) || len(a.at) != len(b.at) {
 		return false
+	}
+	for k, v := range a.at {
+		if w, ok := b.at[k]; !ok || w != v {
+			return false
+		}
 	}
 	for k, v := range a.diff {
 		if w, ok := b.diff[k]; !ok || w != v {
@@ -107,6 +123,11 @@ type guardAnalyzer struct {
 	reqs    []guardReq
 	manual  []guardReq // sites outside the domain
 	curFn   string
+	// optional hooks (used by R-CHARGUARD for the interpreter)
+	hookCall   func(fn *types.Func, c *ast.CallExpr, s *gstate) // non-primitive method call on the receiver type, before its effect
+	hookTextto func(c *ast.CallExpr, s *gstate)                 // after the modelled effect of textto
+	hookAssign func(v *types.Var, rhs ast.Expr, s *gstate)      // after `v = rhs` / `v := rhs` was modelled
+	clearAt    func(s *gstate)
 }
 
 func (a *guardAnalyzer) isParser(e ast.Expr) bool {
@@ -177,6 +198,9 @@ func (a *guardAnalyzer) shift(s *gstate, k int) {
 	if s.L < 0 {
 		s.L = 0
 	}
+	for v := range s.at {
+		s.at[v] += k
+	}
 	for v, d := range s.diff {
 		if d-k < -6 {
 			delete(s.diff, v)
@@ -205,22 +229,34 @@ func (a *guardAnalyzer) call(fn *types.Func, c *ast.CallExpr, s *gstate) {
 			a.outside(c.Pos(), "moveRight("+types.ExprString(c.Args[0])+")")
 			s.L = 0
 			s.diff = map[*types.Var]int{}
+			s.at = map[*types.Var]int{}
 		}
 	case "moveLeft":
 		s.L++
 		for v, d := range s.diff {
 			s.diff[v] = d + 1
 		}
+		for v := range s.at {
+			s.at[v]--
+		}
 	case "textto":
+		s.at = map[*types.Var]int{}
 		if v := a.localVar(c.Args[0]); v != nil {
+			s.at[v] = 0
 			if l, ok := s.saved[v]; ok {
 				s.L = l
 				s.diff = map[*types.Var]int{}
+				if a.hookTextto != nil {
+					a.hookTextto(c, s)
+				}
 				return
 			}
 		}
 		s.L = 0
 		s.diff = map[*types.Var]int{}
+		if a.hookTextto != nil {
+			a.hookTextto(c, s)
+		}
 	case "charAt":
 		if v := a.localVar(c.Args[0]); v != nil {
 			if l, ok := s.saved[v]; ok {
@@ -233,12 +269,16 @@ func (a *guardAnalyzer) call(fn *types.Func, c *ast.CallExpr, s *gstate) {
 		a.outside(c.Pos(), "charAt("+types.ExprString(c.Args[0])+")")
 	case "charsRight", "textpos", "rightMost":
 	default:
+		if a.hookCall != nil {
+			a.hookCall(fn, c, s)
+		}
 		if need := a.need[fn]; need > 0 {
 			a.require(c.Pos(), s, need, "call "+fn.Name()+"()")
 		}
 		if a.moves[fn] {
 			s.L = 0
 			s.diff = map[*types.Var]int{}
+			s.at = map[*types.Var]int{}
 		}
 	}
 }
@@ -293,6 +333,7 @@ func (a *guardAnalyzer) eval(e ast.Node, s *gstate) {
 				}
 			}
 			delete(s.saved, v)
+			delete(s.at, v)
 			return
 		}
 	}
@@ -320,6 +361,7 @@ func (a *guardAnalyzer) assign(n *ast.AssignStmt, s *gstate) {
 			if v := a.localVar(l); v != nil {
 				delete(s.diff, v)
 				delete(s.saved, v)
+				delete(s.at, v)
 			}
 		}
 		return
@@ -334,11 +376,13 @@ func (a *guardAnalyzer) assign(n *ast.AssignStmt, s *gstate) {
 		case token.ASSIGN, token.DEFINE:
 			delete(s.diff, v)
 			delete(s.saved, v)
+			delete(s.at, v)
 			switch a.primName(r) {
 			case "charsRight":
 				s.diff[v] = 0
 			case "textpos":
 				s.saved[v] = s.L
+				s.at[v] = 0
 			default:
 				if w := a.localVar(r); w != nil {
 					if d, ok := s.diff[w]; ok {
@@ -347,7 +391,13 @@ func (a *guardAnalyzer) assign(n *ast.AssignStmt, s *gstate) {
 					if d, ok := s.saved[w]; ok {
 						s.saved[v] = d
 					}
+					if d, ok := s.at[w]; ok {
+						s.at[v] = d
+					}
 				}
+			}
+			if a.hookAssign != nil {
+				a.hookAssign(v, r, s)
 			}
 		case token.SUB_ASSIGN, token.ADD_ASSIGN:
 			if c, ok := core.ConstInt(a.info, r); ok {
@@ -362,9 +412,11 @@ func (a *guardAnalyzer) assign(n *ast.AssignStmt, s *gstate) {
 				delete(s.diff, v)
 			}
 			delete(s.saved, v)
+			delete(s.at, v)
 		default:
 			delete(s.diff, v)
 			delete(s.saved, v)
+			delete(s.at, v)
 		}
 	}
 }
@@ -513,7 +565,7 @@ func (a *guardAnalyzer) analyze(fd *ast.FuncDecl, name string, entryL int, recor
 	a.curFn = name
 	g := cfg.New(fd.Body, func(*ast.CallExpr) bool { return true })
 	in := make([]gstate, len(g.Blocks))
-	in[0] = gstate{ok: true, L: entryL, diff: map[*types.Var]int{}, saved: map[*types.Var]int{}}
+	in[0] = gstate{ok: true, L: entryL, diff: map[*types.Var]int{}, saved: map[*types.Var]int{}, at: map[*types.Var]int{}}
 	outT := make([]gstate, len(g.Blocks))
 	outF := make([]gstate, len(g.Blocks))
 	run := func(bi int) {
